@@ -164,7 +164,11 @@ class IOBase(Communicator):
         self.is_connected is changed only by self.connectStart or self.closeConnection
         """
         if self.is_connected:
-            return True  # no need for intermediate updates
+            if self._conn is not None:
+                return True  # no need for intermediate updates
+            # the connection was closed by an other thread just while this parameter was
+            # updated to True: without this, the module would never reconnect again
+            self.is_connected = False
         try:
             self.connectStart()
             if self._last_error:
@@ -190,7 +194,7 @@ class IOBase(Communicator):
 
     def check_connection(self):
         """called before communicate"""
-        if not self.is_connected:
+        if not self.is_connected or self._conn is None:
             now = time.time()
             if now >= self._last_connect_attempt + self.pollinterval:
                 # we do not try to reconnect more often than pollinterval
